@@ -4,6 +4,10 @@ theorem layer : coq/theories/props/C10.v — `is_renaming rho X X' = true` impli
                 on the machine of vm/Vm.v (values, frames, faults mapped through rho; IsType / Equal
                 verdicts computed from each side's own type_compatibility rows and canonical_tuples);
                 `value_reemit`: the code `value_to_instructions_from_cache` emits pushes exactly the value
+models        : vm/RemapShake.v (tree_shake) and vm/RemapMerge.v (merge_bytecode) — proved to produce structural
+                renamings (tree_shake: every well-formed program; merge: under named decidable premises); each run
+                compares their OUTPUT with the real functions' output (exact equality of the dumped Bytecode) and
+                evaluates the merge premises on every real merge
 translation validation : for every corpus / generated program the REAL code produces the four packagings
                 (as compiled, tree_shake, serde_json round trip, merge_bytecode behind 0-3 earlier
                 programs in a real Environment); the harness rebuilds rho by a structural worklist from
@@ -20,10 +24,10 @@ from vplib import sexpr, testsrc
 
 MANIFEST = dict(
     category="proof",
-    text="Coq theorems (props/C10.v, all closed under the global context): renaming_simulation — whenever the validator `is_renaming rho X X'` accepts, every function reachable from the entry (renaming_covers_reachable), on every argument / captured environment / sequence of outside inputs (mapped through rho), runs in lock step in both programs on the VM model of executor.rs (vm/Vm.v): same fault, or rho-related next state / final value, with IsType and Equal verdicts COMPUTED from each program's own type_compatibility rows and canonical tuple ids (verdicts_commute; side condition checked by the validator on the real dumped tables; canonical ids via C13's shape theorem), under the hypothesis that tuple values reaching a run-time type test carry a tuple id with a Type::Tuple entry (C08's has_type_entry obligation); renaming_simulation_ext (verdicts as outside inputs, no hypothesis); wf_stable_under_renaming (C07's verifier certificate carries over to every mapped function); value_reemit — the instruction list value_to_instructions_from_cache emits for a process/resource/ref-free value, spliced anywhere, pushes exactly that value (an imported %m / %m.f is the module's value); inject_rebuilds_captures — the prefix inject_function_captures prepends rebuilds exactly the captures as locals (captures without nested capturing closures). tree_shake and merge_bytecode themselves are validated per output, not modelled: the extracted validator runs on every real tree-shake and every real merge (behind 0-3 previously merged programs) of the corpus and of seeded mutations; all packagings are run on the real VM and compared; the model of value_to_instructions_from_cache is compared with the real compiler's output. The serde_json leg is only validated (field-wise equality of the round trip + run).",
+    text="Coq theorems (props/C10.v, 19, all closed under the global context). (A) Validator: renaming_simulation — whenever `is_renaming rho X X'` (= struct_ok && rows_ok && canon_ok X && canon_ok X') accepts, every function reachable from the entry (renaming_covers_reachable), on every argument / captured environment / sequence of outside inputs (mapped through rho), runs in lock step in both programs on the VM model of executor.rs (vm/Vm.v, itself tied to executor.rs by C07's value-level lock-step check): same fault, or rho-related next state / final value, with IsType and Equal verdicts COMPUTED from each program's own type_compatibility rows and canonical tuple ids (verdicts_commute; canonical ids via C13's shape theorem), under the hypothesis that tuple values reaching a run-time type test carry a tuple id with a Type::Tuple entry (C08's has_type_entry obligation); struct_simulation_ext: the structural part alone gives the simulation with verdicts as outside inputs; wf_stable_under_renaming. (B) tree_shake (optimisation.rs) is MODELLED (vm/RemapShake.v: guarded reachability marking over functions/constants/tuples/types/builtins incl. Callable.receive, Process send/receive and the first Type::Tuple entry of every constructed tuple; rank remap tables; emission order; unwrap vs unwrap_or) and PROVED: tree_shake_struct — for EVERY well-formed program the model does not panic and its output is a structural renaming of the input under the tables it computed; tree_shake_simulation — hence every tree-shake preserves behaviour step for step (verdicts as inputs); tree_shake_is_renaming — full renaming given the loader-table premise rows_ok. (C) merge_bytecode (environment.rs import_type/import_tuple/remap_function + program.rs register_*) is MODELLED (vm/RemapMerge.v) and PROVED partial: merge_struct / merge_simulation / merge_is_renaming — behind ANY accumulated program E, whenever the model returns (no panic, no id cycle) and under the named decidable premises merge_premises (Function operands point backwards, no Process instruction, NIL/OK head the tuple tables, same-name builtins have the imported signature, dedup identifies no two functions/builtins), the grown program is a structural renaming; merge_premises_needed: each premise is necessary (model witnesses; the forward-reference one replayed on the real merge_bytecode). Every run compares both models' OUTPUT with the real functions' output on every program (exact equality of the dumped Bytecode) and evaluates the premises on every real merge. (D) value_reemit / inject_rebuilds_captures for imports. What stays VALIDATED ONLY: the type_compatibility rows (rows_ok: recomputed by every loader through is_compatible — checked on the real dumped tables for every packaging), the serde_json leg (field-wise equality of the round trip + run), and the models' fidelity (differential, not proof).",
     design_ref="§5 C10",
     note="Trusted: Coq kernel; extraction (ExtrOcamlBasic) and the OCaml driver; the Rust harness (dump of Bytecode, reconstruction of rho — rho is untrusted input to the validator, a wrong rho can only cause a rejection); vm/Vm.v is the hand-written per-process model shared with C07 (tied to executor.rs by C07's trace correspondence); binaries are opaque handles there, so constant BYTES are checked by the validator but their allocation is an outside input. serde_json / serde derives are not modelled. `Instruction::Process` (REPL `@N`) is validated with tree_shake's reading (function index renamed); environment.rs remap_function leaves it alone, which is right for the only producer (the REPL passes an environment-space index and never tree-shakes) — see the report.",
-    technique="Coq-verified renaming validator (simulation proof) + translation validation of every real tree-shake / merge output + real-VM differential runs of all packagings + import-vs-inline differential",
+    technique="Coq models of tree_shake and merge_bytecode proved to yield renamings + Coq-verified renaming validator (simulation proof) + model-vs-real output equality and translation validation on every real tree-shake / merge + real-VM differential runs of all packagings + import-vs-inline differential",
 )
 
 IO_BUILTINS = re.compile(r"__(file|tcp|dns|directory|filesystem|socket|stdin|stdout|time|random)[a-z_]*__|%(file|fs|dns|socket|tcp|io)\b")
@@ -182,7 +186,9 @@ def run(ctx):
 
     # shard: package (real code) then validate (extracted Coq), per shard, order preserved
     import concurrent.futures as cf
-    from vplib.common import NCPU
+    import os
+    from vplib.common import NCPU as _NCPU
+    NCPU = max(1, min(_NCPU, int(os.environ.get("VERIF_JOBS", str(_NCPU)))))   # shared machine: cap the fan-out
     shards = min(NCPU, max(1, len(lines) // 30))
     # interleave so that the big std programs spread over the shards
     chunks = [list(range(i, len(lines), shards)) for i in range(shards)]
@@ -243,6 +249,8 @@ def run(ctx):
     merges_shifted = merges_deduped = shaken_dropped = merged_ac = 0
     k_hist, kinds, outcome_hist, cross = {}, {}, {}, {}
     run_groups = 0
+    model = {"shake same": 0, "shake differ": 0, "shake skip": 0, "merge same": 0, "merge differ": 0, "merge skip": 0,
+             "merge premises-fail": 0, "driver-error": 0}
     seen, distinct = set(), 0
     samples = []
     json_same = 0
@@ -311,6 +319,22 @@ def run(ctx):
                 ctx.violation(dict(replay, kind="impl-violation" if differ else "translation-validation-rejection",
                                    what="the verified renaming validator rejects a real packaging output",
                                    pair=pair, verdict=mm.group(0)[:600], runs=runs), no_input=not differ)
+        # ---- the Coq MODELS of tree_shake / merge_bytecode vs the real functions (exact output equality),
+        # and the premises of the merge theorem on this real merge
+        for mm in re.finditer(r"\((shake|merge) (same premises-fail|same|differ|skip|driver-error)([^()]*)\)", v or ""):
+            what, verdict = mm.group(1), mm.group(2)
+            if verdict == "same premises-fail":
+                model["merge premises-fail"] += 1
+                model["merge same"] += 1
+            elif verdict == "driver-error":
+                model["driver-error"] += 1
+            else:
+                model["%s %s" % (what, verdict)] += 1
+            if verdict in ("differ", "driver-error"):
+                real = "optimisation.rs tree_shake" if what == "shake" else "environment.rs merge_bytecode"
+                ctx.violation(dict(replay, kind="impl-violation" if differ else "correspondence-broken",
+                                   correspondence="vm/Remap%s.v (model) vs %s: dumped Bytecode not equal" % ("Shake" if what == "shake" else "Merge", real),
+                                   verdict=mm.group(0)[:400], runs=runs), no_input=not differ)
         if not (v or "").startswith("(validated"):
             ctx.violation(dict(replay, kind="correspondence-broken", what="validator produced no verdict", line=(v or "")[:300]), no_input=True)
         shifted, deduped, dropped = int(st.get("shifted", 0)), int(st.get("deduped", 0)), int(st.get("dropped-fns", 0))
@@ -337,7 +361,8 @@ def run(ctx):
     for _ in range(ctx.n(400, 6000)):
         use, mod, inplace = gen_import_case(rng)
         qimp.append(("gen", "%s (mod \"m\" %s) (inplace %s)" % (sexpr.quote(use), sexpr.quote(mod), sexpr.quote(inplace))))
-    rc, iout = ctx.run_sharded(qp, [l for _, l in qimp], args=["--import"], timeout=1500)
+    rc, iout = ctx.run_sharded(qp, [l for _, l in qimp], args=["--import"], timeout=1500,
+                               shards=min(NCPU, max(1, len(qimp) // 50)))
     imports = imp_ok = imp_skipped = 0
     imp_hist = {}
     for (o, l), out in zip(qimp, iout):
@@ -407,7 +432,28 @@ def run(ctx):
                         ctx.violation({"kind": "translation-validation-rejection", "what": "the verified renaming validator rejects a real packaging output (importing program)",
                                        "case": l[:600], "verdict": (v or "")[:400]}, no_input=True)
 
+    # ---- hand-written Bytecode (`quiv run file.json`): the premise `backward_refs` of the merge theorem is
+    # needed on the REAL merge_bytecode too. Line 1 (compiler output) must agree; line 2 (the same program with
+    # its two functions swapped: a forward Function reference) is the recorded latent defect, not a C10
+    # violation (the compiler never emits one: `merge premises-fail` stays 0).
+    jw = corpus_lines("c10_json_witness.txt")
+    json_probe = []
+    if jw:
+        rc, jout = ctx.run_bin(qp, jw, args=["--json"], timeout=600)
+        for l, o in zip(jw, jout):
+            m = re.match(r"\(jsonrun \(alone (.*)\) \(merged (.*)\)\)$", o)
+            json_probe.append({"alone": m.group(1) if m else o[:200], "merged": m.group(2) if m else "?"})
+        if json_probe and json_probe[0]["alone"] != json_probe[0]["merged"]:
+            ctx.violation({"kind": "impl-violation", "what": "a compiler-produced Bytecode loaded from JSON behaves differently alone and merged",
+                           "case": jw[0][:600], "runs": json_probe[0]})
+
     ctx.cov.update({
+        "tree_shake_model_equals_real": model["shake same"], "tree_shake_model_differs": model["shake differ"],
+        "merge_model_equals_real": model["merge same"], "merge_model_differs": model["merge differ"],
+        "merge_theorem_premises_hold": model["merge same"] - model["merge premises-fail"],
+        "merge_theorem_premises_fail": model["merge premises-fail"],
+        "model_inputs_ill_formed": model["shake skip"] + model["merge skip"], "model_driver_errors": model["driver-error"],
+        "hand_written_bytecode_probe": json_probe,
         "import_reemission_model_vs_compiler": emit_same, "import_reemission_instructions": emit_instrs,
         "import_reemission_skipped": emit_skip, "import_reemission_differ": emit_differ,
         "programs": programs, "packagings_validated": validated, "packagings_accepted": accepted, "rejected": rejected,
@@ -422,8 +468,8 @@ def run(ctx):
         "negative_controls": neg_total, "negative_controls_rejected": neg_rejected, "negative_controls_by_kind": neg_by_kind,
         "sources_not_compiling_standalone": not_compiled,
         "traces_validated_against_impl": run_groups,
-        "disagreements_checked": rejected + (neg_total - neg_rejected),
-        "evaluations": validated + 5 * run_groups + imports, "distinct_nontrivial": distinct,
+        "disagreements_checked": rejected + (neg_total - neg_rejected) + model["shake differ"] + model["merge differ"],
+        "evaluations": validated + 5 * run_groups + imports + model["shake same"] + model["merge same"], "distinct_nontrivial": distinct,
         "rule": "every source string of quiver-tests, std/*.qv via %imports, examples, spec.md code blocks, corpus/c10_sources.txt, plus seeded mutations (wrap in function/block/branch/tuple field, sequence two programs, add dead code); each compiled program is packaged four ways by the real code, merged behind 0-3 seeded earlier programs (15% of them the program itself, so merges deduplicate); non-trivial = the tree-shake dropped a function or the merge moved an index; distinct by SHA-1 of the dumped as-compiled program",
         "samples": samples or [{"origin": srcs[0][0], "source": srcs[0][1][:200]}],
         "by_origin": kinds,
